@@ -107,7 +107,13 @@ fn state_line(cas: &Cas<K>, root: &Path) -> String {
         v.sort();
         format!("[{}]", v.iter().map(|(k, h)| format!("{}={}", hex(k), hex(h.as_bytes()))).collect::<Vec<_>>().join(";"))
     } else { "-".into() };
-    format!("I={} S={} cas=[{}] idx={} intents={}", if li { "*" } else { "-" }, if ls { "*" } else { "-" }, cas_listing(root), idx, intents)
+    // the per-hash ledger of in-flight intents (the model's g_byhash)
+    let prot = if !li {
+        let mut v = cassadilia::verif::protected_hashes(cas.as_arc());
+        v.sort();
+        format!("[{}]", v.iter().map(|(h, c)| format!("{}={}", hex(h.as_bytes()), c)).collect::<Vec<_>>().join(";"))
+    } else { "-".into() };
+    format!("I={} S={} cas=[{}] idx={} intents={} prot={}", if li { "*" } else { "-" }, if ls { "*" } else { "-" }, cas_listing(root), idx, intents, prot)
 }
 
 struct CCase { name: String, lines: Vec<String> }
